@@ -130,7 +130,9 @@ def apply_pos(p, vals, kinds, cur, P0):
     m, ref = p['m'], p['ref']
     if m == 'aligned':
         base = {None: 0, 'begins': 0, 'current-offset': cur, 'innermost-pkt': P0}[ref]
-        if v <= 0:
+        if v == 0:
+            raise Fail('alignment 0: modulo by zero', 'position')
+        if v < 0:
             raise OutOfScope('alignment %r' % v)
         return cur + (v - ((cur - base) % v)) % v
     if m == 'shift':
